@@ -113,6 +113,13 @@ def run(ctx, rep):
             elif n.endswith('Iterator::nth'):
                 a = str(sym(fn, t['args'][0]))
                 info['access'] = 'characters' if ('chars' in a or 'char_indices' in a) else 'bytes?'
+        if name.endswith('string'):
+            BYTE_OPS = ('::as_bytes', 'str>::bytes', '::bytes', 'core::str::<impl str>::len', 'alloc::string::String::len', '::is_char_boundary',
+                        '::split_at', '::get_unchecked', 'core::str::<impl str>::get', '::as_ptr', '::from_utf8')
+            fam = [fn] + [g for g in F.all_fns if g.path.startswith(name + '::{closure')]
+            byte_calls = sorted({callee_name(t) for g in fam for b, t in g.calls() if any(callee_name(t).endswith(x) or x in callee_name(t) for x in BYTE_OPS)
+                                 or (psc.is_index_call(callee_name(t)) and 'str' in str(t['callee'].get('generic_args', '')) )})
+            rep.ob(not byte_calls, 'R13.2', name, 'no byte-level access', 'strings are indexed by character: byte-level operations on the text: %s' % byte_calls, fn.loc())
         routines[name] = info
         string = name.endswith('string')
         want = 'characters' if string else 'elements'
